@@ -1,6 +1,17 @@
 """K-seq based checks: C01 (sequential semantics), C02 (clean restart), C06 (rejected
 writes), C11 (journal layout), C15 (cache accounting), C16 (no panics)."""
-import common as C, core, gen
+import common as C, core, gen, pydec
+
+core.register("C01", "Props.C01", "theories/Props/C01.vo",
+              ["C01_refines_spec", "C01_results_agree", "C01_chunking_invisible"])
+core.register("C06", "Props.C06", "theories/Props/C06.vo",
+              ["C06_refused_record_no_trace", "C06_refused_write_no_trace", "C06_refused_append_prefix",
+               "C06_refused_iff_spec_refuses"])
+core.register("C15", "Props.C15", "theories/Props/C15.vo",
+              ["C15_counts_exact", "C15_stat_exact", "C15_over_limit_pinned", "C15_drain", "C15_replay_partial"])
+core.register("C16", "Props.C16", "theories/Props/C16.vo",
+              ["C16_no_panic", "C16_write_no_panic", "C16_read_inverted_empty", "C16_index_limit_refused",
+               "C16_next_index_in_range_partial"])
 
 FINAL = ["F 1", "I", "G", "R 0 100000", "D", "Z", "K"]
 
@@ -51,23 +62,30 @@ def oracle_c01(ctx, case, impl_line, spec_line, strict_rejects=True):
 
 
 def gen_cases(ctx, n, nops_lo, nops_hi, big_cache=True, small_cache=False, restarts=0, p_reject=0.0, finals=FINAL):
+    """K-seq runs in lock step with the worker (wait_worker_idle after every call), which is
+    deterministic only if the worker cannot run in the middle of a call: a multi-entry
+    append that rotates a chunk hands requests to the worker while it is still appending.
+    Multi-entry appends are therefore generated only under configurations that cannot
+    rotate; under rotating configurations appends are single-entry (multi-entry appends
+    across rotations are exercised by the gated K-trace checks)."""
     rnd = ctx.rnd
     cases = []
     for _ in range(n):
         nops = rnd.randint(nops_lo, nops_hi)
-        ops, st, sim = gen.gen_history(rnd, nops, p_reject=p_reject)
+        cfg = gen.rand_cfg(rnd, big_cache=big_cache, small_cache=small_cache)
+        nr = rnd.randint(1, restarts) if restarts else 0
+        cfgs = [gen.rand_cfg(rnd, big_cache=big_cache, small_cache=small_cache) for _ in range(nr)]
+        rot = any(gen.cfg_rotates(c) for c in [cfg] + cfgs)
+        ops, st, sim = gen.gen_history(rnd, nops, p_reject=p_reject, max_batch=1 if rot else 4)
         for k, v in st.items():
             ctx.count("ops_" + k, v)
-        if restarts:
-            # insert restarts with a freshly drawn configuration: flush first (clean restart)
-            nr = rnd.randint(1, restarts)
-            for _ in range(nr):
-                pos = rnd.randint(0, len(ops))
-                cfg2 = gen.rand_cfg(rnd, big_cache=big_cache, small_cache=small_cache)
-                ops[pos:pos] = ["F 1", "I", "X " + cfg2, "G", "R 0 100000"]
-                ctx.count("restarts")
-        cfg = gen.rand_cfg(rnd, big_cache=big_cache, small_cache=small_cache)
+        # restarts with a freshly drawn configuration: flush first (clean restart)
+        for cfg2 in cfgs:
+            pos = rnd.randint(0, len(ops))
+            ops[pos:pos] = ["F 1", "I", "X " + cfg2, "G", "R 0 100000"]
+            ctx.count("restarts")
         ctx.count("cfg_recs_" + cfg.split()[2])
+        ctx.count("cfg_multi_entry_appends" if not rot else "cfg_single_entry_appends")
         line = "SEQ %s | %s" % (cfg, " ; ".join(gen.sync_ops(ops) + finals))
         cases.append(line)
     return cases
@@ -83,15 +101,15 @@ def nontrivial(cases, impl):
     return len(s)
 
 
-def run_C01(ctx):
-    proof = core.proof_stage("C01")
-    core.builds()
-    n = ctx.scale(500, 6000)
-    cases = gen_cases(ctx, n, 5, ctx.scale(60, 300), big_cache=True, p_reject=0.0)
-    # small exhaustive-ish scope as support in thorough mode
-    impl = C.run_impl(cases, ctx.wd)
-    model = C.run_model(cases, ctx.wd)
-    core.compare(ctx, "seq", cases, impl, model)
+
+def seq_run(ctx, cases, name="seq", profile="debug"):
+    impl = C.run_impl(cases, ctx.wd, name, profile=profile)
+    model = C.run_model(cases, ctx.wd, name)
+    core.compare(ctx, name + ("-" + profile if profile != "debug" else ""), cases, impl, model)
+    return impl, model
+
+
+def spec_oracle(ctx, cases, impl, label):
     spec = spec_lines(cases, ctx.wd)
     bad = 0
     for c, a, s in zip(cases, impl, spec):
@@ -99,10 +117,193 @@ def run_C01(ctx):
         if r is not None:
             bad += 1
             if bad <= 3:
-                ctx.fail("oracle", "C01 oracle: " + r[2], dict(kind="seq", case=c, at_op=r[0], op=r[1], detail=r[2]))
+                ctx.fail("oracle", label + ": " + r[2], dict(kind="seq", case=c, at_op=r[0], op=r[1], detail=r[2]))
     ctx.k_checks["oracle-reference-log"] = (bad == 0, len(cases))
-    ctx.cov["evaluations"] = len(cases)
-    ctx.cov["distinct_nontrivial"] = nontrivial(cases, impl)
-    ctx.cov["rule"] = "seeded structured legal histories x random chunk/read-buffer settings, big cache; distinct by case line; non-trivial = contains a chunk rotation or a boundary operation"
-    ctx.cov["samples"] = [cases[0][:1500], cases[1][:1500]]
+    return bad
+
+
+def cov(ctx, cases, impl, rule):
+    ctx.cov["evaluations"] = ctx.cov.get("evaluations", 0) + len(cases)
+    ctx.cov["distinct_nontrivial"] = ctx.cov.get("distinct_nontrivial", 0) + nontrivial(cases, impl)
+    ctx.cov["rule"] = rule
+    ctx.cov["samples"] = ctx.cov.get("samples", []) + [cases[0][:1200], cases[len(cases) // 2][:1200]]
+
+
+def corpus(prop):
+    """minimized regression cases, run first"""
+    import os
+    p = os.path.join(C.VERIF, "corpus", prop + ".cases")
+    if os.path.exists(p):
+        return [l.strip() for l in open(p) if l.strip() and not l.startswith("#")]
+    return []
+
+
+def run_C01(ctx):
+    proof = core.proof_stage("C01")
+    core.builds()
+    n = ctx.scale(500, 6000)
+    cases = corpus("C01") + gen_cases(ctx, n, 5, ctx.scale(60, 300), big_cache=True, p_reject=0.0)
+    impl, model = seq_run(ctx, cases)
+    spec_oracle(ctx, cases, impl, "C01 oracle")
+    cov(ctx, cases, impl, "seeded structured legal histories (truncate-then-append at a lower term, purge beyond last, first append at a non-zero index, empty and multi-KB payloads) x random chunk/read-buffer settings incl. 0 and 1, big cache; distinct by case line; non-trivial = contains a chunk rotation or a refused/boundary operation")
+    return core.finish(ctx, proof)
+
+
+def run_C06(ctx):
+    proof = core.proof_stage("C06")
+    core.builds()
+    n = ctx.scale(500, 5000)
+    cases = corpus("C06") + gen_cases(ctx, n, 5, ctx.scale(50, 200), big_cache=True, p_reject=0.2, restarts=1,
+                                      finals=["F 1", "I", "G", "H", "R 0 100000", "D", "K",
+                                              "X 100000 1073741824 5 1073741824 1 64", "G", "R 0 100000"])
+    # a stat + resident listing around every operation, so that a refused call can be compared before/after
+    cases2 = []
+    for c in cases:
+        head, ops = c.split("|", 1)
+        out = []
+        ol = [x.strip() for x in ops.split(";") if x.strip()]
+        for j, o in enumerate(ol):
+            if o[0] in "VATPC" and j + 1 < len(ol) and ol[j + 1] == "I":
+                out += ["G", "H", o]          # observed again after the I that follows
+            elif o == "I" and j > 0 and ol[j - 1][0] in "VATPC":
+                out += ["I", "G", "H"]
+            else:
+                out.append(o)
+        cases2.append(head + "| " + " ; ".join(out))
+    cases = cases2
+    impl, model = seq_run(ctx, cases)
+    spec_oracle(ctx, cases, impl, "C06 oracle")
+    # direct: a call answered with err leaves stat (state, chunks, cache counters, boundary) and the resident set unchanged
+    bad = 0
+    nrej = 0
+    for c, a in zip(cases, impl):
+        f = fields(a)
+        ops = ["open"] + [o.strip() for o in c.split("|", 1)[1].split(";")]
+        for k in range(2, len(f) - 3):
+            if f[k].startswith("err ") and ops[k][0] in "VATPC" and f[k - 1].startswith("resident") and ops[k + 1] == "I":
+                nrej += 1
+                multi = ops[k][0] == "A" and len(ops[k].split()) > 4
+                if multi:
+                    continue        # a multi-entry append may have accepted a prefix
+                if f[k - 2] != f[k + 2] or f[k - 1] != f[k + 3]:
+                    bad += 1
+                    if bad <= 3:
+                        ctx.fail("oracle", "a refused write changed the reported state, chunk bookkeeping or cache",
+                                 dict(kind="seq", case=c, at_op=k, op=ops[k], before=f[k - 2][:600], after=f[k + 2][:600]))
+    ctx.count("refused_calls_checked", nrej)
+    ctx.k_checks["oracle-refused-call-changes-nothing"] = (bad == 0, nrej)
+    cov(ctx, cases, impl, "histories with 20% refused operations (vote/commit backwards, id <= last, gap, truncate at a missing index) at arbitrary points, stat+resident set before and after every write, then flush, restart under another configuration and full read; non-trivial = contains a refused operation or a rotation")
+    return core.finish(ctx, proof)
+
+
+def run_C15(ctx):
+    proof = core.proof_stage("C15")
+    core.builds()
+    n = ctx.scale(400, 4000)
+    base = gen_cases(ctx, n, 5, ctx.scale(50, 200), big_cache=False, small_cache=True, p_reject=0.1,
+                     finals=["F 1", "I", "G", "H", "E", "G", "H"])
+    cases = []
+    for c in corpus("C15") + base:
+        head, ops = c.split("|", 1)
+        out = []
+        for o in [x.strip() for x in ops.split(";") if x.strip()]:
+            out.append(o)
+            if o in ("I", "E"):           # the worker is idle here: observations are deterministic
+                out += ["G", "H"]
+            if o == "I" and ctx.rnd.random() < 0.15:
+                out += ["E", "G", "H"]
+        cases.append(head + "| " + " ; ".join(out))
+    impl, model = seq_run(ctx, cases)
+    bad = 0
+    nchk = 0
+    over = 0
+    for c, a in zip(cases, impl):
+        f = fields(a)
+        ops = ["open"] + [o.strip() for o in c.split("|", 1)[1].split(";")]
+        cfg = c.split("|")[0].split()[1:]
+        max_items, cap = int(cfg[0]), int(cfg[1])
+        boundary_before = None
+        for k in range(1, len(f) - 1):
+            if f[k].startswith("stat ") and f[k + 1].startswith("resident"):
+                nchk += 1
+                cache = f[k][f[k].index("cache=") + 6:].split(" ")[0].split(",")
+                ev, items, _, size, _ = cache
+                res = [x for x in f[k + 1][9:].split(",") if x]
+                cnt = len(res)
+                tot = sum(int(x.split(":")[2]) for x in res)
+                why = None
+                if int(items) != cnt or int(size) != tot:
+                    why = "stat reports %s items / %s bytes, resident are %d items / %d bytes" % (items, size, cnt, tot)
+                # over-limit => everything pinned (only checked right after an accepted append)
+                prev_op = ops[k - 1] if k - 1 < len(ops) else ""
+                if prev_op == "I" and k >= 2 and ops[k - 2].startswith("A ") and f[k - 2].startswith("ok "):
+                    prev_op = ops[k - 2]
+                if why is None and prev_op.startswith("A ") and (cnt > max_items or tot > cap):
+                    over += 1
+                    b = boundary_before
+                    for x in res:
+                        t, i, _ = x.split(":")
+                        if b is not None and (int(t), int(i)) <= b:
+                            why = "cache over its limit after an append but resident %s:%s is at or below the boundary %s in force at the append" % (t, i, b)
+                # drained => nothing at or below the boundary
+                if why is None and prev_op == "E":
+                    b = None if ev == "-" else tuple(int(x) for x in ev.split(":"))
+                    for x in res:
+                        t, i, _ = x.split(":")
+                        if b is not None and (int(t), int(i)) <= b:
+                            why = "after drain resident %s:%s is at or below the boundary %s" % (t, i, b)
+                if why:
+                    bad += 1
+                    if bad <= 3:
+                        ctx.fail("oracle", "C15 oracle: " + why, dict(kind="seq", case=c, at_op=k, op=prev_op, detail=why))
+                boundary_before = None if ev == "-" else tuple(int(x) for x in ev.split(":"))
+    ctx.count("stat_vs_resident_checks", nchk)
+    ctx.count("over_limit_states_checked", over)
+    ctx.k_checks["oracle-counts-exact-pinned-drain"] = (bad == 0, nchk)
+    cov(ctx, cases, impl, "histories under cache limits {0,1,2,3} x {0,1,10,1G} with refused writes, truncations, purges of pinned entries; stat() and the resident (log id, size) list (verif-hooks accessor) after every operation, drains after idle; non-trivial = contains rotation or refused operation")
+    return core.finish(ctx, proof)
+
+
+LIMITS = [0, 1, 2, (1 << 63), (1 << 64) - 2, (1 << 64) - 1]
+
+
+def run_C16(ctx):
+    proof = core.proof_stage("C16")
+    core.builds(("debug", "release"))
+    rnd = ctx.rnd
+    n = ctx.scale(300, 2500)
+    cases = corpus("C16")
+    for _ in range(n):
+        cfg = gen.rand_cfg(rnd)
+        ops, st, sim = gen.gen_history(rnd, rnd.randint(3, ctx.scale(40, 120)), p_reject=0.1,
+                                       max_batch=1 if gen.cfg_rotates(cfg) else 4)
+        out = []
+        for o in gen.sync_ops(ops):
+            out.append(o)
+            if o == "I" and rnd.random() < 0.3:
+                purged = sim.purged[1] if sim.purged else 0
+                last = sim.last()[1] if sim.last() else 0
+                args = LIMITS + [max(0, purged - 1), purged, purged + 1, max(0, last - 1), last, last + 1, last + 2]
+                a, b = rnd.choice(args), rnd.choice(args)
+                t = rnd.choice([0, 1, sim.term, (1 << 64) - 1])
+                k = rnd.randrange(8)
+                probe = ["T %d" % a, "R %d %d" % (a, b), "P %d %d" % (t, a), "C %d %d" % (t, a),
+                         "A %d %d x61" % (t, a), "V %d %d" % (t, a), "R %d %d" % (b, a), "T %d" % b][k]
+                ctx.count("probe_" + probe[0])
+                out += [probe, "I", "G"]
+        cases.append("SEQ %s | %s" % (cfg, " ; ".join(out + ["F 1", "I", "G", "R 0 %d" % ((1 << 64) - 1), "D", "Z"])))
+    bad = 0
+    for prof in ("debug", "release"):
+        impl, model = seq_run(ctx, cases, "seq", profile=prof)
+        for c, a in zip(cases, impl):
+            if "panic" in a.split(" ; ") or " panic" in a or a.startswith("panic") or a == "hang":
+                bad += 1
+                if bad <= 3:
+                    f = fields(a)
+                    ops = ["open"] + [o.strip() for o in c.split("|", 1)[1].split(";")]
+                    k = len(f) - 1
+                    ctx.fail("oracle", "a public operation panicked (%s build): %s" % (prof, ops[k] if k < len(ops) else "?"),
+                             dict(kind="seq", profile=prof, case=c, at_op=k, op=ops[k] if k < len(ops) else "?", observed=f[-1][:300]))
+    ctx.k_checks["oracle-no-panic"] = (bad == 0, 2 * len(cases))
+    cov(ctx, cases, impl, "histories with boundary arguments (0, 1, 2, purged-1..purged+1, last-1..last+2, 2^63, 2^64-2, 2^64-1) for truncate/read/purge/commit/append/save_vote injected at random points, run on a debug (overflow checks on) and a release build under catch_unwind; non-trivial = contains rotation or a refused operation")
     return core.finish(ctx, proof)
